@@ -75,11 +75,16 @@ type scenario struct {
 	S2C    []msgSpec `json:"s2c"`
 	Order  []string  `json:"order"`  // linear order "c0","s0",... (a sender waits for the other side's earlier messages); empty = free running
 	Chunks []int     `json:"chunks"` // raw client: write sizes (cyclic); empty = one write per frame
+	CKey   string    `json:"ckey"`   // raw client: Sec-WebSocket-Key to send ("" = derived from the id)
+	// combo: parts run over simultaneously open connections of ONE server process. Part k starts once part
+	// k-1 has been answered (http) / upgraded (ws); websocket parts exchange their messages only after every
+	// part has started, so later upgrades and requests happen while earlier connections are open.
+	Parts []scenario `json:"parts"`
 }
 
 type input struct {
-	Routes     []string   `json:"routes"`   // http handlers
-	WsRoute    string     `json:"ws_route"` // websocket handler
+	Routes     []string   `json:"routes"`    // http handlers
+	WsRoutes   []string   `json:"ws_routes"` // websocket handlers
 	SettleMs   int        `json:"settle_ms"`
 	DeadlineMs int        `json:"deadline_ms"`
 	MaxStuck   int        `json:"max_stuck"`
@@ -99,6 +104,9 @@ type run struct {
 	cliUp   chan struct{}
 	finish  chan struct{}
 	srvDone chan struct{}
+	started chan struct{} // answered (http) / upgraded (ws) or given up
+	once    sync.Once
+	gate    <-chan struct{} // combo: messages flow only after this is closed (nil: at once)
 	cliGot  int32
 	srvGot  int32
 }
@@ -115,11 +123,37 @@ func (r *run) log(ev string, kv ...interface{}) {
 	r.mu.Unlock()
 }
 
+func (r *run) markStarted() { r.once.Do(func() { close(r.started) }) }
+
+func (r *run) waitGate() bool {
+	if r.gate == nil {
+		return true
+	}
+	return waitCh(r.gate, r.deadline)
+}
+
+func newRun(sc *scenario, deadline time.Duration) *run {
+	rn := &run{sc: sc, deadline: deadline, srvUp: make(chan struct{}), cliUp: make(chan struct{}),
+		finish: make(chan struct{}), srvDone: make(chan struct{}), started: make(chan struct{})}
+	rn.log("reset", "sid", sc.ID, "kind", sc.Kind)
+	return rn
+}
+
+// which scenario a handler invocation belongs to: the connection registered for the route (combo parts),
+// else the one sequential scenario in progress
 var current atomic.Value // *run
+var byRoute sync.Map     // route -> *run
 
 func cur() *run {
 	r, _ := current.Load().(*run)
 	return r
+}
+
+func lookup(route string) *run {
+	if v, ok := byRoute.Load(route); ok {
+		return v.(*run)
+	}
+	return cur()
 }
 
 // ---------------------------------------------------------------- reflection helpers (read-only)
@@ -239,14 +273,12 @@ func waitCount(p *int32, need int, until time.Time) bool {
 }
 
 // call f in a goroutine; false if it did not return within d
-func within(d time.Duration, f func()) bool {
+func within(rn *run, d time.Duration, f func()) bool {
 	done := make(chan struct{})
 	go func() {
 		defer func() {
 			if p := recover(); p != nil {
-				if r := cur(); r != nil {
-					r.log("note", "what", fmt.Sprintf("panic: %v", p))
-				}
+				rn.log("note", "what", fmt.Sprintf("panic: %v", p))
 			}
 			close(done)
 		}()
@@ -310,7 +342,7 @@ func waitServer(before int, settle time.Duration) {
 // ---------------------------------------------------------------- server side
 func httpHandler(route string) func(*http.Request, *http.Response) {
 	return func(r *http.Request, w *http.Response) {
-		rn := cur()
+		rn := lookup(route)
 		if rn == nil {
 			return
 		}
@@ -331,7 +363,7 @@ func httpHandler(route string) func(*http.Request, *http.Response) {
 
 func wsHandler(route string) func(*http.Request, *http.Response) {
 	return func(r *http.Request, w *http.Response) {
-		rn := cur()
+		rn := lookup(route)
 		if rn == nil {
 			return
 		}
@@ -353,6 +385,9 @@ func wsHandler(route string) func(*http.Request, *http.Response) {
 		// returned from Upgrade would be swallowed, so the server waits for the client
 		if !waitCh(rn.cliUp, rn.deadline) {
 			rn.log("note", "what", "server: client never finished its upgrade")
+			return
+		}
+		if !rn.waitGate() {
 			return
 		}
 		until := time.Now().Add(rn.deadline)
@@ -388,12 +423,13 @@ func wsHandler(route string) func(*http.Request, *http.Response) {
 
 // ---------------------------------------------------------------- http scenario
 func runHTTP(rn *run, settle time.Duration) (stuck bool) {
+	defer rn.markStarted()
 	sc := rn.sc
 	url := fmt.Sprintf("http://%s:%d%s", srvIP, srvPort, sc.Path)
 	var c *http.Client
 	var err error
 	parked := parkedReaders()
-	if !within(rn.deadline, func() { c, err = http.NewClient(url) }) || err != nil || c == nil {
+	if !within(rn, rn.deadline, func() { c, err = http.NewClient(url) }) || err != nil || c == nil {
 		rn.log("note", "what", fmt.Sprintf("client connect failed: %v", err))
 		rn.log("cres", "status", -1, "body", "", "err", "connect", "timeout", true)
 		return true
@@ -412,7 +448,7 @@ func runHTTP(rn *run, settle time.Duration) (stuck bool) {
 		"body", hex.EncodeToString([]byte(cr.GetBody())))
 	waitServer(parked, settle)
 	var res string
-	ok := within(rn.deadline, func() { res, err = c.GetResult() })
+	ok := within(rn, rn.deadline, func() { res, err = c.GetResult() })
 	if !ok {
 		rn.log("cres", "status", -1, "body", "", "err", "", "timeout", true)
 		c.GetConnection().Close()
@@ -434,12 +470,13 @@ func runHTTP(rn *run, settle time.Duration) (stuck bool) {
 
 // ---------------------------------------------------------------- websocket, bundled client
 func runWS(rn *run, settle time.Duration) (stuck bool) {
+	defer rn.markStarted()
 	sc := rn.sc
 	url := fmt.Sprintf("http://%s:%d%s", srvIP, srvPort, sc.Path)
 	var cli wsClient
 	var err error
 	parked := parkedReaders()
-	if !within(rn.deadline, func() { cli, err = newBundledWS(url) }) || err != nil || cli == nil {
+	if !within(rn, rn.deadline, func() { cli, err = newBundledWS(url) }) || err != nil || cli == nil {
 		rn.log("note", "what", fmt.Sprintf("client connect failed: %v", err))
 		rn.log("done", "timeout", true)
 		return true
@@ -449,7 +486,7 @@ func runWS(rn *run, settle time.Duration) (stuck bool) {
 		cli.Close()
 	}()
 	waitServer(parked, settle)
-	if !within(rn.deadline, func() { err = cli.Upgrade() }) || err != nil {
+	if !within(rn, rn.deadline, func() { err = cli.Upgrade() }) || err != nil {
 		rn.log("note", "what", fmt.Sprintf("client upgrade: %v", err))
 		rn.log("done", "timeout", true)
 		return true
@@ -464,6 +501,11 @@ func runWS(rn *run, settle time.Duration) (stuck bool) {
 	rn.log("upg", "client", "bundled", "ckey", ckey, "skey", rn.skey, "accept", accept, "ref", acceptRef(ckey),
 		"status", reqToken(hc.GetRequest(), "uri"))
 	close(rn.cliUp)
+	rn.markStarted()
+	if !rn.waitGate() {
+		rn.log("done", "timeout", true)
+		return true
+	}
 	until := time.Now().Add(rn.deadline)
 	wdone := make(chan struct{})
 	go func() {
@@ -629,6 +671,7 @@ func ints(b []byte) []int {
 }
 
 func runWSRaw(rn *run, s *stack.Stack, settle time.Duration) (stuck bool) {
+	defer rn.markStarted()
 	sc := rn.sc
 	until := time.Now().Add(rn.deadline)
 	parked := parkedReaders()
@@ -640,8 +683,10 @@ func runWSRaw(rn *run, s *stack.Stack, settle time.Duration) (stuck bool) {
 	}
 	defer c.close()
 	waitServer(parked, settle)
-	kb := gen(16, sc.ID*7+1)
-	ckey := base64.StdEncoding.EncodeToString(kb)
+	ckey := sc.CKey
+	if ckey == "" {
+		ckey = base64.StdEncoding.EncodeToString(gen(16, sc.ID*7+1))
+	}
 	req := "GET " + sc.Path + " HTTP/1.1\r\nHost: " + srvIP + ":" + strconv.Itoa(srvPort) +
 		"\r\nUpgrade: websocket\r\nConnection: Upgrade\r\nSec-WebSocket-Key: " + ckey +
 		"\r\nSec-WebSocket-Version: 13\r\n\r\n"
@@ -668,6 +713,12 @@ func runWSRaw(rn *run, s *stack.Stack, settle time.Duration) (stuck bool) {
 	}
 	rn.log("upg", "client", "raw", "ckey", ckey, "skey", rn.skey, "accept", accept, "ref", acceptRef(ckey), "status", status)
 	close(rn.cliUp)
+	rn.markStarted()
+	if !rn.waitGate() {
+		rn.log("done", "timeout", true)
+		return true
+	}
+	until = time.Now().Add(rn.deadline)
 	wdone := make(chan struct{})
 	go func() {
 		defer close(wdone)
@@ -797,8 +848,8 @@ func main() {
 	for _, r := range in.Routes {
 		srv.HandleFunc(r, httpHandler(r))
 	}
-	if in.WsRoute != "" {
-		srv.HandleFunc(in.WsRoute, wsHandler(in.WsRoute))
+	for _, r := range in.WsRoutes {
+		srv.HandleFunc(r, wsHandler(r))
 	}
 	go srv.ListenAndServ()
 	time.Sleep(30 * time.Millisecond)
@@ -808,47 +859,99 @@ func main() {
 	settle := time.Duration(in.SettleMs) * time.Millisecond
 	stuckIDs, skipped := []int{}, []int{}
 	nstuck := map[string]int{}
+	deadline := time.Duration(in.DeadlineMs) * time.Millisecond
+	runOne := func(rn *run) bool {
+		switch rn.sc.Kind {
+		case "http":
+			return runHTTP(rn, settle)
+		case "ws":
+			st := runWS(rn, settle)
+			waitCh(rn.srvDone, 200*time.Millisecond)
+			return st
+		case "wsraw":
+			st := runWSRaw(rn, s, settle)
+			waitCh(rn.srvDone, 200*time.Millisecond)
+			return st
+		}
+		vh.Fatal("unknown scenario kind %q", rn.sc.Kind)
+		return true
+	}
+	flush := func(rn *run) {
+		rn.mu.Lock()
+		rn.sealed = true
+		evs := rn.events
+		rn.mu.Unlock()
+		t := tw
+		if rn.sc.Kind == "http" {
+			t = th
+		}
+		for _, e := range evs {
+			t.Log(e)
+		}
+	}
 	for i := range in.Scenarios {
 		sc := &in.Scenarios[i]
 		cls := "ws"
 		if sc.Kind == "http" {
 			cls = "http"
 		}
-		if nstuck[cls] >= in.MaxStuck {
-			skipped = append(skipped, sc.ID)
+		if nstuck[cls] >= in.MaxStuck || (sc.Kind == "combo" && nstuck["http"] >= in.MaxStuck) {
+			if sc.Kind == "combo" {
+				for _, p := range sc.Parts {
+					skipped = append(skipped, p.ID)
+				}
+			} else {
+				skipped = append(skipped, sc.ID)
+			}
 			continue
 		}
-		rn := &run{sc: sc, deadline: time.Duration(in.DeadlineMs) * time.Millisecond,
-			srvUp: make(chan struct{}), cliUp: make(chan struct{}), finish: make(chan struct{}), srvDone: make(chan struct{})}
-		rn.log("reset", "sid", sc.ID, "kind", sc.Kind)
-		current.Store(rn)
-		var stuck bool
-		switch sc.Kind {
-		case "http":
-			stuck = runHTTP(rn, settle)
-		case "ws":
-			stuck = runWS(rn, settle)
-			waitCh(rn.srvDone, 200*time.Millisecond)
-		case "wsraw":
-			stuck = runWSRaw(rn, s, settle)
-			waitCh(rn.srvDone, 200*time.Millisecond)
-		default:
-			vh.Fatal("unknown scenario kind %q", sc.Kind)
+		if sc.Kind != "combo" {
+			rn := newRun(sc, deadline)
+			current.Store(rn)
+			if runOne(rn) {
+				nstuck[cls]++
+				stuckIDs = append(stuckIDs, sc.ID)
+			}
+			flush(rn)
+			continue
 		}
-		if stuck {
-			nstuck[cls]++
-			stuckIDs = append(stuckIDs, sc.ID)
+		// combo: several connections of this one server process open at the same time
+		current.Store((*run)(nil))
+		gate := make(chan struct{})
+		runs := make([]*run, len(sc.Parts))
+		res := make([]bool, len(sc.Parts))
+		var wg sync.WaitGroup
+		for k := range sc.Parts {
+			p := &sc.Parts[k]
+			rn := newRun(p, deadline)
+			runs[k] = rn
+			if p.Kind != "http" {
+				rn.gate = gate
+			}
+			byRoute.Store(p.Path, rn)
+			wg.Add(1)
+			go func(k int, rn *run) {
+				defer wg.Done()
+				res[k] = runOne(rn)
+				if rn.sc.Kind == "http" {
+					byRoute.Delete(rn.sc.Path)
+				}
+			}(k, rn)
+			waitCh(rn.started, deadline+time.Second)
 		}
-		rn.mu.Lock()
-		rn.sealed = true
-		evs := rn.events
-		rn.mu.Unlock()
-		t := tw
-		if sc.Kind == "http" {
-			t = th
+		close(gate)
+		wg.Wait()
+		anyStuck := false
+		for k, rn := range runs {
+			byRoute.Delete(rn.sc.Path)
+			if res[k] {
+				anyStuck = true
+				stuckIDs = append(stuckIDs, rn.sc.ID)
+			}
+			flush(rn)
 		}
-		for _, e := range evs {
-			t.Log(e)
+		if anyStuck {
+			nstuck["ws"]++
 		}
 	}
 	th.Close()
